@@ -68,6 +68,28 @@ Example C12_nonvacuous :
      [OCalls [CNext (RItem (MReq 3 1000 7 6)); CReady TOk; CFlush TOk]; OYield 1 3 1000 7 6; OGauges 1 1]].
 Proof. vm_compute. reflexivity. Qed.
 
+From TarpcV Require Import ServerFuel ServerSpec ServerProofsPA4 ServerProofsPB6 ServerProofsPC10 ServerProofsPC3.
+
+(* THE MONITOR THEOREMS: (a) a request is handed to the application only while fewer than L are
+   in flight; (b) every throttle reply answers the request just read, exactly once, and that
+   request is never executed; (c) a request is refused only if L requests really were in flight
+   when it was read - c12_rel_ok exempts exactly the polls in which capacity was freed earlier in
+   the same poll (K1, known finding); outside that class the full-strength monitor accepts. *)
+Theorem C12_monitor_rel : forall (T C : Type) (tp : transport T response cmsg) (ctl : T -> C -> T)
+    (tfuel : T -> nat) (c : cfg) (t0 : T) (ops : list (op C)),
+  tfuel_ok tp tfuel ->
+  c12_rel_ok c ops (fst (run tp ctl tfuel c t0 ops)) = true.
+Proof. exact s12_rel. Qed.
+
+Theorem C12_monitor : forall (T C : Type) (tp : transport T response cmsg) (ctl : T -> C -> T)
+    (tfuel : T -> nat) (c : cfg) (t0 : T) (ops : list (op C)),
+  tfuel_ok tp tfuel ->
+  freed_in_same_poll c ops (fst (run tp ctl tfuel c t0 ops)) = false ->
+  c12_ok c ops (fst (run tp ctl tfuel c t0 ops)) = true.
+Proof. exact s12. Qed.
+
 Print Assumptions C12_maxreq_below_limit.
 Print Assumptions C12_yield_within_limit.
 Print Assumptions C12_freed_in_same_poll_witness.
+Print Assumptions C12_monitor_rel.
+Print Assumptions C12_monitor.
